@@ -34,6 +34,9 @@ def check(ctx):
     _r2(ctx, pkg)
     _r3(ctx, pkg)
     _r4(ctx, pkg)
+    # removal by a list of positions removes exactly those positions (shared with C15.R4)
+    from .c15 import _r4 as removal_rule
+    removal_rule(ctx, pkg, "R5")
 
 
 def _mutations(fl):
@@ -312,6 +315,7 @@ MUTANTS = [
     {"name": "filter-by-name-text", "file": NF, "old": "                    rp in self._allowed_species\n                    for rp in reaction.reactants + reaction.products", "new": "                    rp.name in {s.name for s in self._allowed_species}\n                    for rp in reaction.reactants + reaction.products", "rules": ["R2"]},
     {"name": "filter-reactants-only", "file": NF, "old": "                    for rp in reaction.reactants + reaction.products\n                ]\n            ):\n                self._skipped_reactions.append(reaction)", "new": "                    for rp in reaction.reactants\n                ]\n            ):\n                self._skipped_reactions.append(reaction)", "rules": ["R2"]},
     {"name": "undeclared-option-read", "file": EXT, "old": 'allowed_species = self.option("reduce-by-species")', "new": 'allowed_species = self.option("limit-species")', "rules": ["R3"]},
+    {"name": "remove-in-place-backwards", "file": NF, "old": "            self.reaction_list = [\n                r for idx, r in enumerate(self.reaction_list) if idx not in reaction\n            ]\n", "new": "            for idx in sorted(reaction, reverse=True):\n                del self.reaction_list[idx]\n", "rules": ["R5"]},
     {"name": "source-sink-swapped", "file": NF, "old": "source = self._reactants.difference(self._products)", "new": "source = self._reactants.difference(self._reactants)", "rules": ["R4"]},
 ]
 BENIGN = [
